@@ -245,3 +245,31 @@ Theorem C07_mdns_ip4_branch_partial : forall c buf sm si dm di port,
     wf_udp4 (host_mac c) dm si di port port (beq buf) false fr = true.
 Proof. exact mdns4_partial. Qed.
 Print Assumptions C07_mdns_ip4_branch_partial.
+
+(* ================================================================ *)
+(* icmp6SendPacket with an ICMPv6 message of ANY length that fits (type, code, zero checksum field, body q):
+   addresses, hop limit rule, length consistency and checksum for all inputs *)
+From PV Require Import Proofs.SendIcmp6.
+
+Theorem C07_icmp6_send_any_message : forall c sm si dm di t cd q junk,
+  mac_ok (host_mac c) -> mac_ok dm -> ip6_ok si -> ip6_ok di -> t < 256 -> cd < 256 ->
+  bytes_ok q -> (length q <= 1400)%nat -> length junk = EthMaxSize ->
+  exists fr, icmp6_send_packet c (sm, si) (dm, di) (t :: cd :: 0 :: 0 :: q) junk = Ok [fr] /\
+    wf_icmp6 (host_mac c) dm si di t cd (beq q) fr = true.
+Proof. exact icmp6_generic. Qed.
+Print Assumptions C07_icmp6_send_any_message.
+
+(* ICMP6SendRouterAdvertisement after fix 6efe826: type 134, code 0, host MAC + LLA as source, requested
+   destination, hop limit rule, checksum, fixed RA fields and exactly the marshalled option block.
+   Partial: that the option block decodes to the requested option list is judged per case by the
+   executable reference decoder (spec column of the correspondence), not proved for all lists. *)
+Theorem C07_ra_partial : forall c prefixes rdnss dm di junk ob,
+  mac_ok (host_mac c) -> ip6_ok (host_lla c) -> mac_ok dm -> ip6_ok di -> prefixes <> [] ->
+  cat_opts ((match rdnss with Some (lt, srv) => [rdnss_option lt srv] | None => [] end)
+            ++ map (fun p => prefix_option (u8 (fst p)) true true 7200 1800 (snd p)) prefixes
+            ++ [dnssl_lan_option 1200; mtu_option (u32 (mtu c)); lla_option 1 (host_mac c)]) = Some ob ->
+  bytes_ok ob -> (length ob <= 1380)%nat -> length junk = EthMaxSize ->
+  exists fr, send_ra c prefixes rdnss (dm, di) junk = Ok [fr] /\
+    wf_icmp6 (host_mac c) dm (host_lla c) di 134 0 (beq (ra_fixed ++ ob)) fr = true.
+Proof. exact ra_partial. Qed.
+Print Assumptions C07_ra_partial.
